@@ -12,7 +12,8 @@
      f_coaauth  coa.go verifies the Request Authenticator, computes the request MA per RFC 5176
                 (zero authenticator field), and builds its replies MA first, authenticator second
      f_dmwin    the Event-Timestamp replay window also applies to Disconnect-Request
-     f_white    a CoA whose attribute delta leaves the documented mutable set is NAKed (401)      *)
+     f_white    a CoA whose attribute delta leaves the documented mutable set is NAKed (401)
+     f_tsreq    while the replay window is enabled a request without a usable Event-Timestamp is discarded *)
 From Coq Require Import String Ascii.
 From OV Require Import Common.Base.
 Import ListNotations.
@@ -21,9 +22,11 @@ Local Open Scope N_scope.
 
 Definition bytes := list N.
 
-Record flags := { f_reply : bool; f_coaauth : bool; f_dmwin : bool; f_white : bool }.
-Definition repaired : flags := {| f_reply := true; f_coaauth := true; f_dmwin := true; f_white := true |}.
-Definition defective : flags := {| f_reply := false; f_coaauth := false; f_dmwin := false; f_white := false |}.
+Record flags := { f_reply : bool; f_coaauth : bool; f_dmwin : bool; f_white : bool; f_tsreq : bool }.
+Definition repaired : flags := {| f_reply := true; f_coaauth := true; f_dmwin := true; f_white := true; f_tsreq := true |}.
+(* what /repo HEAD implements after the four C08 fix commits: everything but the Event-Timestamp requirement *)
+Definition head : flags := {| f_reply := true; f_coaauth := true; f_dmwin := true; f_white := true; f_tsreq := false |}.
+Definition defective : flags := {| f_reply := false; f_coaauth := false; f_dmwin := false; f_white := false; f_tsreq := false |}.
 
 (* ------------------------------------------------------------------ byte helpers *)
 Fixpoint beq (a b : bytes) : bool :=
@@ -256,6 +259,46 @@ Fixpoint crun (fl : flags) (secret : bytes) (st : pending) (ops : list cop) : pe
               let '(st2, outs) := crun fl secret st1 r in (st2, out :: outs)
   end.
 
+(* Provider.Authenticate on top of one exchange (Retries = 1, one server): the request is registered, the
+   datagrams arrive in order, the first one handed over decides.  [extract] is extractAttributes. *)
+Inductive auth_result :=
+| AAllowed (attrs : list (bytes * bytes))    (* Access-Accept: Allowed with the extracted attributes *)
+| ADenied                                    (* Access-Reject *)
+| AError.                                    (* no reply handed over (timeout) or unexpected code *)
+
+Fixpoint first_delivered (fl : flags) (secret : bytes) (st : pending) (dgs : list bytes) : option bytes :=
+  match dgs with
+  | [] => None
+  | d :: r => match cstep fl secret st (CRecv d) with
+              | (_, Some _) => Some d
+              | (st', None) => first_delivered fl secret st' r
+              end
+  end.
+
+Definition auth_outcome (extract : list attr -> list (bytes * bytes)) (d : bytes) : auth_result :=
+  match parse d with
+  | None => AError
+  | Some p => if p_code p =? 2 then AAllowed (extract (p_attrs p))
+              else if p_code p =? 3 then ADenied else AError
+  end.
+
+Definition authenticate (fl : flags) (secret : bytes) (extract : list attr -> list (bytes * bytes))
+           (req : bytes) (dgs : list bytes) : auth_result :=
+  let st := fst (cstep fl secret pending0 (CSend (nth 1 req 0) req)) in
+  match first_delivered fl secret st dgs with
+  | Some d => auth_outcome extract d
+  | None => AError
+  end.
+
+(* what exchange must have put on the wire, given what Encode produced: the observed request with the
+   value of its Message-Authenticator recomputed (random authenticator, identifier and timestamp are
+   taken from the observation) *)
+Definition refill_ma (secret req : bytes) : bytes :=
+  match find_attr80 req with
+  | Some off => let z := set_at off req zeros16 in set_at off z (hmac secret z)
+  | None => req
+  end.
+
 (* ------------------------------------------------------------------ CoA / Disconnect listener *)
 Record client := { c_addr : N; c_plen : N; c_secret : bytes }.
 Record coacfg := { window : Z; nasid : bytes; maps : list (N * N * bytes); clients : list client }.
@@ -296,6 +339,16 @@ Definition resolve_target (attrs : list attr) : option (N * bytes) :=
   match first_val 1 nonempty attrs with Some v => Some (3, v) | None =>
   match first_val 168 (fun v => (length v =? 16)%nat) attrs with Some v => Some (4, v) | None => None
   end end end end.
+
+(* with the Event-Timestamp requirement: an enabled window admits only requests that carry a usable
+   (4-octet, non-zero) Event-Timestamp inside it *)
+Definition window_ok_req (w now : Z) (attrs : list attr) : bool :=
+  if (0 <? w)%Z then
+    let ts := event_ts attrs in
+    (0 <? ts) && let age := (now - Z.of_N ts)%Z in negb ((w <? age)%Z || (age <? - w)%Z)
+  else true.
+Definition window_check (fl : flags) (w now : Z) (attrs : list attr) : bool :=
+  if f_tsreq fl then window_ok_req w now attrs else window_ok w now attrs.
 
 Definition nasid_ok (expected : bytes) (attrs : list attr) : bool :=
   match find (fun a => fst a =? 32) attrs with
@@ -438,7 +491,7 @@ Definition nak (fl : flags) (cl : nat) (secret raw : bytes) (p : packet) (code c
 Definition handle_coa (fl : flags) (cfg : coacfg) (now : Z) (bus : N) (cl : nat) (secret raw : bytes) (p : packet) : coa_out :=
   let attrs := p_attrs p in
   if has_service_type attrs 8 then nak fl cl secret raw p 45 507 [SCoAReq; SCoANak] else
-  if negb (window_ok (window cfg) now attrs) then ODropInvalid cl [SCoAReq; SInvalid] else
+  if negb (window_check fl (window cfg) now attrs) then ODropInvalid cl [SCoAReq; SInvalid] else
   match resolve_target attrs with
   | None => nak fl cl secret raw p 45 402 [SCoAReq; SCoANak]
   | Some target =>
@@ -459,7 +512,7 @@ Definition handle_coa (fl : flags) (cfg : coacfg) (now : Z) (bus : N) (cl : nat)
 Definition handle_dm (fl : flags) (cfg : coacfg) (now : Z) (cl : nat) (secret raw : bytes) (p : packet) : coa_out :=
   let attrs := p_attrs p in
   if has_non_ident attrs then nak fl cl secret raw p 42 404 [SDMReq; SDMNak] else
-  if f_dmwin fl && negb (window_ok (window cfg) now attrs) then ODropInvalid cl [SDMReq; SInvalid] else
+  if f_dmwin fl && negb (window_check fl (window cfg) now attrs) then ODropInvalid cl [SDMReq; SInvalid] else
   match resolve_target attrs with
   | None => nak fl cl secret raw p 42 402 [SDMReq; SDMNak]
   | Some target =>
@@ -486,5 +539,9 @@ Definition coa_step (fl : flags) (cfg : coacfg) (now : Z) (src bus : N) (raw : b
       else OSilent cl
     end
   end.
+
+(* Authenticate with the provider's extractAttributes (no custom response mappings) *)
+Definition authenticate_radius (fl : flags) (secret req : bytes) (dgs : list bytes) : auth_result :=
+  authenticate fl secret (extract_attributes []) req dgs.
 
 End Crypto.
